@@ -150,6 +150,9 @@ func init() {
 		gen: func(master uint64, idx int, tier string) *spec.RunSpec {
 			seed := runSeed(master, "C03", idx)
 			r := simnet.NewRng(seed, "c03")
+			if idx%12 == 7 {
+				return c03ForgottenSessionSpec(seed, r)
+			}
 			tr := []string{"tcp", "udp", "udp"}[r.Intn(3)]
 			maxBytes := r.Pick(1, 1500, 20000, 100000, 300000)
 			if tier == "thorough" {
@@ -179,6 +182,35 @@ func init() {
 			return s
 		},
 	})
+}
+
+// c03ForgottenSessionSpec: UDP. The server application answers and closes at once; everything the
+// server sends after its open-session response is lost until the server has forgotten the closed
+// session (its 5 s housekeeping tick), so the client - which has seen neither data nor close - is
+// still retransmitting its open request when the server no longer knows the session. Whatever the
+// client's reader then gets, it must not be a clean end of stream.
+func c03ForgottenSessionSpec(seed uint64, r *simnet.Rng) *spec.RunSpec {
+	s := genStreamSpec("C03", seed, streamGenOpts{transport: "udp", maxBytes: 3000, maxSessions: 1, closeMode: "afterwrite", rich: false})
+	s.Clients = s.Clients[:1]
+	c := &s.Clients[0]
+	c.Sessions = c.Sessions[:1]
+	se := &c.Sessions[0]
+	se.StartUs = 0
+	se.Closer = "server"
+	se.CloseDelayUs = int64(r.Pick(0, 0, 50, 1000))
+	se.C2S = spec.Script{Writes: []int{r.Pick(1, 16, 500, 1000)}, GapsUs: []int64{1}, ReadBufs: []int{32768}, ReadGapUs: 1}
+	se.S2C = spec.Script{Writes: []int{r.Pick(1, 100, 1400, 2000)}, GapsUs: []int64{1}, ReadBufs: []int{32768}, ReadGapUs: 1}
+	s.Server.RawMux = r.Bool(0.5)
+	c.NoWait = !s.Server.RawMux && r.Bool(0.5)
+	lat := int64(r.Pick(200, 1000, 5000))
+	s.Net = spec.Net{LatencyUs: lat}
+	// server-to-client silence (from the start, or from just after the open-session response
+	// has left) until shortly before the client's retransmission that follows the server's 5 s tick
+	s.Net.Blackholes = []spec.Blackhole{{Client: -1, Dir: 1, FromUs: []int64{0, 0, lat + 2, lat + 60}[r.Intn(4)], ToUs: int64(r.Pick(5200000, 5600000, 5900000))}}
+	s.Liveness = nil
+	s.VirtualCapS = 600
+	s.Profile = "c03-udp-server-forgets-closed-session"
+	return s
 }
 
 func init() {
